@@ -7,6 +7,7 @@ EXTENDS Weights, Json, TLC
 \* Unit = 1 200 000:  10 ppm = 12, 100 ppm = 120, 25 % = 300 000, 33.33 % = 399 960, 50 % = 600 000,
 \*                    99.99 % = 1 199 880, 100 % = 1 200 000, 150 % = 1 800 000
 MCWUAll   == {0, 12, 120, 300000, 399960, 600000, 1199880, 1200000, 1800000}
+MCWUCore  == {0, 12, 300000, 399960, 600000, 1800000}
 MCWUSmall == {0, 300000}
 MCWUMid   == {0, 12, 600000}
 MCWCNone  == {}
